@@ -6,7 +6,7 @@ from props.c20 import problems
 
 
 
-def _lattice_case(seed):
+def _lattice_case(seed, mode='explicit'):
     """dynamic_complete with regexp terminals (inside the truncation-closed pool, outside finding F6): ambiguity inside terminals.  All derivations of the
     character lattice (every member prefix of every terminal at every offset, ignored text skipped between tokens) are enumerated by the lattice oracle and
     compared, as sets of trees with token types, texts and offsets, with the expanded explicit-ambiguity result."""
@@ -20,7 +20,7 @@ def _lattice_case(seed):
     out = {'grammar': g, 'runs': []}
     try:
         with guarded(6):
-            p = Lark(g, parser='earley', lexer='dynamic_complete', ambiguity='explicit')
+            p = Lark(g, parser='earley', lexer='dynamic_complete', ambiguity=mode)
     except (LarkError, GrammarError, Timeout):
         out['nobuild'] = True; return out
     if not oracle_derivs.acyclic(p.rules):
@@ -65,6 +65,10 @@ def _lattice_case(seed):
         try:
             with guarded(8):
                 tree = p.parse(text)
+                if mode == 'forest':
+                    from lark.parsers.earley_forest import TreeForestTransformer
+                    run['is_ambiguous'] = bool(tree.is_ambiguous)
+                    tree = TreeForestTransformer(resolve_ambiguity=False).transform(tree)
                 got = sorted({json.dumps(canon_t(x)) for x in forestlib.expand_ambig(tree)[:2000]})
         except UnexpectedInput:
             got = []
